@@ -49,11 +49,11 @@ def st_amount(draw, kind, profile):
     if kind == "supply":
         return draw(st.one_of(st.tuples(st.just("wallet"), st.sampled_from(FR)), st.tuples(st.just("abs"), st.sampled_from(["0", "0.000001", "1", "3.7", "1000", "1000000000000"]))))
     if kind == "withdraw":
-        return draw(st.one_of(st.none(), st.tuples(st.just("supply"), st.sampled_from(FR)), st.tuples(st.just("maxwithdraw"), st.sampled_from(["0.5", "0.999", "0.999999999999", "1", "1", "1.000000000001", "1.001", "1.01", "2"])), st.tuples(st.just("abs"), st.sampled_from(["0", "0.01", "1"]))))
+        return draw(st.one_of(st.none(), st.tuples(st.just("supply"), st.sampled_from(FR)), st.tuples(st.just("supplyq"), st.sampled_from(["up", "down"])), st.tuples(st.just("maxwithdraw"), st.sampled_from(["0.5", "0.999", "0.999999999999", "1", "1", "1.000000000001", "1.001", "1.01", "2"])), st.tuples(st.just("abs"), st.sampled_from(["0", "0.01", "1"]))))
     if kind == "borrow":
         return draw(st.one_of(st.none(), st.tuples(st.just("maxborrow"), st.sampled_from(["0.1", "0.5", "0.999", "1", "1", "1.0101", "1.01010101", "1.01010102", "1.0202", "2"])), st.tuples(st.just("abs"), st.sampled_from(["0", "0.001", "1", "100", "5000", "1000000000"]))))
     if kind == "repay":
-        return draw(st.one_of(st.none(), st.tuples(st.just("debt"), st.sampled_from(FR)), st.tuples(st.just("wallet"), st.sampled_from(["0.5", "1"])), st.tuples(st.just("abs"), st.sampled_from(["0", "0.5", "100"]))))
+        return draw(st.one_of(st.none(), st.tuples(st.just("debt"), st.sampled_from(FR)), st.tuples(st.just("debtq"), st.sampled_from(["up", "up", "down"])), st.tuples(st.just("wallet"), st.sampled_from(["0.5", "1"])), st.tuples(st.just("abs"), st.sampled_from(["0", "0.5", "100"]))))
     raise ValueError(kind)
 
 
@@ -122,6 +122,13 @@ def st_case(draw, profile="chaos", max_bars=8, max_ops=5):
     bars = []
     crash_at = draw(st.integers(1, nb)) if profile in ("liq",) or draw(st.integers(0, 3)) == 0 else None
     for i in range(nb):
+        # a quiet bar: the pool rows repeat the previous bar's exactly and at most one token price moves
+        quiet = i > 0 and draw(st.integers(0, 4)) == 0
+        if quiet:
+            nm = draw(st.sampled_from(names))
+            px[nm] = px[nm] * (D(draw(st.sampled_from([1000, 1000, 970, 1030, 1250, 800]))) / D(1000))
+            bars.append({"rows": {k: dict(v) for k, v in bars[-1]["rows"].items()}, "prices": {k: dstr(px[k]) for k in names}, "ops": [draw(st_op(names, profile)) for _ in range(draw(st.integers(0, max_ops)))], "quiet": True})
+            continue
         if i > 0:
             for nm in names:
                 if not equal_idx or nm == names[0]:
@@ -157,4 +164,6 @@ def st_case(draw, profile="chaos", max_bars=8, max_ops=5):
         )
     # a broker may be configured to let the wallet go negative (Broker(allow_negative_balance=True)): debits are then exact
     allow_negative = profile == "accrual" and draw(st.integers(0, 3)) == 0
-    return {"tokens": tokens, "wallet": wallet, "bars": bars, "allow_negative": allow_negative}
+    # the market may be told about a subset of the tokens only (AaveV3Market(tokens=[weth]) and a DAI debt, as the unit tests do)
+    listed = names if draw(st.integers(0, 2)) else sorted(draw(st.sets(st.sampled_from(names), min_size=1, max_size=n - 1)))
+    return {"tokens": tokens, "wallet": wallet, "bars": bars, "allow_negative": allow_negative, "listed": list(listed)}
